@@ -10,9 +10,9 @@ for s in $SEEDS; do
   if [ -f seeded/$s/meta.json ]; then P=$(python3 -c "import json,re;m=json.load(open('seeded/$s/meta.json'));p=m.get('property','');r=re.findall(r'C\d\d',p+' '+m.get('what_i_ran',''));print(' '.join(dict.fromkeys(r)))"); else P=""; fi
   [ -z "$P" ] && P=$(echo $s | grep -o 'C[0-9][0-9]' | head -1)
   for p in $P; do
-    tools/try_seed.sh $s $p > /var/tmp/vp/regress_$s_$p.out 2>&1
-    rc=$(grep -o 'exit=[0-9]*' /var/tmp/vp/regress_$s_$p.out | tail -1)
-    ob=$(grep 'failed obligation' /var/tmp/vp/regress_$s_$p.out | sed 's/.*failed obligation: //' | sort -u | tr '\n' ' ')
+    tools/try_seed.sh $s $p > /var/tmp/vp/regress_${s}_${p}.out 2>&1
+    rc=$(grep -o 'exit=[0-9]*' /var/tmp/vp/regress_${s}_${p}.out | tail -1)
+    ob=$(grep 'failed obligation' /var/tmp/vp/regress_${s}_${p}.out | sed 's/.*failed obligation: //' | sort -u | tr '\n' ' ')
     grep -v "^$s $p " $OUT > $OUT.tmp 2>/dev/null; mv $OUT.tmp $OUT 2>/dev/null
     echo "$s $p $rc $ob" >> $OUT
   done
